@@ -58,6 +58,33 @@ M = [
   "ensurelink is not applied to vertex 0: with low connectivity vertex 0 may be v1 of no link"),
 ]
 
+M += [
+ ("C05", "edgegraph/traversal/helpers.py",
+  ["    cached = vert._qa_neighbors_get(\n        direction_sensitive, unknown_handling, filterfunc\n    )", "        list(nbs), direction_sensitive, unknown_handling, filterfunc\n"],
+  ["    cached = vert._qa_neighbors_get(\n        direction_sensitive, LNK_UNKNOWN_ERROR, filterfunc\n    )", "        list(nbs), direction_sensitive, LNK_UNKNOWN_ERROR, filterfunc\n"],
+  "the cache key omits unknown_handling (lookup and insert): with an unknown-class link at v, neighbors(v, FORWARD, NONNEIGHBOR) followed by neighbors(v, FORWARD, NEIGHBOR) serves the first answer"),
+ ("C09", "edgegraph/traversal/helpers.py", "            # see above notes on short-circuiting filterfunc() if it's not\n            # provided\n            if filterfunc is None or filterfunc(link):\n                links.add(link)",
+  "            links.add(link)",
+  "find_links(direction_sensitive=False) ignores filterfunc"),
+ ("C14", "edgegraph/output/plantuml.py", "    v1, v2 = lnk.v1, lnk.v2", "    v1, v2 = (lnk.v1, lnk.v2) if issubclass(type(lnk), DirectedEdge) else (lnk.v2, lnk.v1)",
+  "relation lines of non-directed links are written v2-to-v1"),
+ ("C06", "edgegraph/traversal/breadthfirst.py", "            if v not in visited:\n                visited.add(v)\n                queue.append(v)\n\n                if (ff_result and ff_result(v)) or not ff_result:\n                    yield v",
+  "            if v not in visited and v not in queue:\n                queue.append(v)\n\n                if (ff_result and ff_result(v)) or not ff_result:\n                    yield v",
+  "placeholder"),
+ ("C01", "edgegraph/structure/vertex.py", "            for link in links:\n                self.add_to_link(link)", "            self._links = list(dict.fromkeys(links))",
+  "Vertex(links=[...]) stores the links without telling them: the new vertex lists links that do not list it"),
+ ("C11", "edgegraph/builder/adjmatrix.py", "            if cell:\n", "            if cell is True or cell == 1:\n",
+  "only True/1 cells create links: other truthy cell values (2, -1, 'x', [0]) are ignored"),
+ ("C10", "edgegraph/output/nrpickler.py", "                elif isinstance(lw, _LazyMemo):\n                    self.realmemoize(lw.obj)", "                elif isinstance(lw, _LazyMemo):\n                    if id(lw.obj) not in self.memo:\n                        self.realmemoize(lw.obj)",
+  "a duplicate lazy memo is skipped silently instead of asserting: an object serialised twice is duplicated in the copy (sharing lost) - needs an object reached again before its lazy memo ran"),
+ ("C18", "edgegraph/structure/singleton.py", "    if cls:\n        if cls in TrueSingleton", "    if cls is not None and cls.__mro__[1] is object:\n        if cls in TrueSingleton",
+  "placeholder"),
+ ("C12", "edgegraph/structure/universe.py", "        return list(self._vertices)", "        return self._vertices",
+  "Universe.vertices hands out the internal member list"),
+ ("C13", "edgegraph/traversal/depthfirst.py", "    visited: dict[Vertex, None] = {}\n    yield from _dft_recur(", "    visited: dict[Vertex, None] = uni.__dict__.setdefault('_dft_scratch', {}) if uni is not None else {}\n    visited.clear()\n    yield from _dft_recur(",
+  "idft_recursive keeps its visited map as a scratch attribute on the universe: a read-only traversal adds an attribute to the universe"),
+]
+
 
 def main():
     base = "/tmp/eg_own_base"
@@ -69,8 +96,10 @@ def main():
         if needs.startswith("placeholder") or "placeholder" in needs:
             continue
         src = open(os.path.join(base, path)).read()
-        if src.count(old) != 1:
-            print("SKIP (anchor count %d)" % src.count(old), prop, path)
+        pairs = list(zip(old, new)) if isinstance(old, list) else [(old, new)]
+        bad = [o for o, _ in pairs if src.count(o) != 1]
+        if bad:
+            print("SKIP (anchor count != 1)", prop, path, repr(bad[0][:50]))
             continue
         counts[prop] = counts.get(prop, 0) + 1
         sid = f"own-{prop}-{counts[prop]}"
@@ -79,7 +108,10 @@ def main():
             continue
         os.makedirs(d)
         mod = os.path.join(base, path + ".new")
-        open(mod, "w").write(src.replace(old, new))
+        out = src
+        for o, n_ in pairs:
+            out = out.replace(o, n_)
+        open(mod, "w").write(out)
         p = subprocess.run(["diff", "-u", "--label", "a/" + path, "--label", "b/" + path, os.path.join(base, path), mod], stdout=subprocess.PIPE)
         open(os.path.join(d, "patch.diff"), "wb").write(p.stdout)
         os.remove(mod)
